@@ -874,7 +874,7 @@ void eval_instruction (const char *p) {
           switch (lval->type)
             {
             case T_NUMBER:
-              lval->u.number++;
+              lval->u.number = LPC_INT_ADD (lval->u.number, 1);
               break;
             case T_REAL:
               lval->u.real++;
@@ -895,7 +895,8 @@ void eval_instruction (const char *p) {
             s = fp + EXTRACT_UCHAR (pc++);
             if (s->type == T_NUMBER)
               {
-                i = (s->u.number-- != 0);
+                i = (s->u.number != 0);
+                s->u.number = LPC_INT_SUB (s->u.number, 1);
               }
             else if (s->type == T_REAL)
               {
@@ -1116,7 +1117,7 @@ void eval_instruction (const char *p) {
             s = fp + EXTRACT_UCHAR (pc++);
             if (s->type == T_NUMBER)
               {
-                s->u.number++;
+                s->u.number = LPC_INT_ADD (s->u.number, 1);
               }
             else if (s->type == T_REAL)
               {
@@ -1217,7 +1218,7 @@ void eval_instruction (const char *p) {
                   switch ((--sp)->type)
                     {
                     case T_NUMBER:
-                      sp->u.number += (sp + 1)->u.number;
+                      sp->u.number = LPC_INT_ADD (sp->u.number, (sp + 1)->u.number);
                       sp->subtype = 0;
                       break;
                     case T_REAL:
@@ -1361,12 +1362,12 @@ void eval_instruction (const char *p) {
             case T_NUMBER:
               if (sp->type == T_NUMBER)
                 {
-                  lval->u.number += sp->u.number;
+                  lval->u.number = LPC_INT_ADD (lval->u.number, sp->u.number);
                   /* both sides are numbers, no freeing required */
                 }
               else if (sp->type == T_REAL)
                 {
-                  lval->u.number += (long)sp->u.real;
+                  lval->u.number = LPC_INT_ADD (lval->u.number, (long)sp->u.real);
                   /* both sides are numbers, no freeing required */
                 }
               else
@@ -1889,7 +1890,7 @@ void eval_instruction (const char *p) {
             case T_NUMBER:
               sp->type = T_NUMBER;
               sp->subtype = 0;
-              sp->u.number = --(lval->u.number);
+              sp->u.number = lval->u.number = LPC_INT_SUB (lval->u.number, 1);
               break;
             case T_REAL:
               sp->type = T_REAL;
@@ -1912,7 +1913,7 @@ void eval_instruction (const char *p) {
           switch (lval->type)
             {
             case T_NUMBER:
-              lval->u.number--;
+              lval->u.number = LPC_INT_SUB (lval->u.number, 1);
               break;
             case T_REAL:
               lval->u.real--;
@@ -2019,7 +2020,7 @@ void eval_instruction (const char *p) {
             case T_NUMBER:
               sp->type = T_NUMBER;
               sp->subtype = 0;
-              sp->u.number = ++lval->u.number;
+              sp->u.number = lval->u.number = LPC_INT_ADD (lval->u.number, 1);
               break;
             case T_REAL:
               sp->type = T_REAL;
@@ -2275,7 +2276,7 @@ void eval_instruction (const char *p) {
               case T_NUMBER:
                 {
                   sp--;
-                  sp->u.number *= (sp + 1)->u.number;
+                  sp->u.number = LPC_INT_MUL (sp->u.number, (sp + 1)->u.number);
                   break;
                 }
 
@@ -2329,7 +2330,7 @@ void eval_instruction (const char *p) {
           if (sp->type == T_NUMBER)
             {
               sp->subtype = 0;
-              sp->u.number = -sp->u.number;
+              sp->u.number = LPC_INT_NEG (sp->u.number);
             }
           else if (sp->type == T_REAL)
             sp->u.real = -sp->u.real;
@@ -2365,7 +2366,8 @@ void eval_instruction (const char *p) {
             case T_NUMBER:
               sp->type = T_NUMBER;
               sp->subtype = 0;
-              sp->u.number = lval->u.number--;
+              sp->u.number = lval->u.number;
+              lval->u.number = LPC_INT_SUB (lval->u.number, 1);
               break;
             case T_REAL:
               sp->type = T_REAL;
@@ -2389,7 +2391,8 @@ void eval_instruction (const char *p) {
             case T_NUMBER:
               sp->type = T_NUMBER;
               sp->subtype = 0;
-              sp->u.number = lval->u.number++;
+              sp->u.number = lval->u.number;
+              lval->u.number = LPC_INT_ADD (lval->u.number, 1);
               break;
             case T_REAL:
               sp->type = T_REAL;
@@ -2507,7 +2510,7 @@ void eval_instruction (const char *p) {
             switch (i | sp->type)
               {
               case T_NUMBER:
-                sp->u.number -= (sp + 1)->u.number;
+                sp->u.number = LPC_INT_SUB (sp->u.number, (sp + 1)->u.number);
                 break;
 
               case T_REAL:
